@@ -86,23 +86,38 @@ def flock(path):
 
 
 def _purge_old(keep):
-    """Remove scratch builds of trees that are no longer current."""
+    """Remove scratch builds of trees that are no longer current: anything
+    not in use (nobody holds its .use lock) that is older than 20 minutes, and
+    beyond the 6 most recent in any case."""
     if not os.path.isdir(SCRATCH_BASE):
         return
+    cands = []
     for name in os.listdir(SCRATCH_BASE):
         p = os.path.join(SCRATCH_BASE, name)
         if name.startswith('t-') and name != keep and os.path.isdir(p):
-            # in use by another check?  (it holds a shared lock on .use)
-            use = os.path.join(p, '.use')
             try:
-                fh = open(use, 'w')
-                fcntl.flock(fh, fcntl.LOCK_EX | fcntl.LOCK_NB)
+                cands.append((os.path.getmtime(p), p))
             except OSError:
-                continue
+                pass
+    cands.sort(reverse=True)
+    now = time.time()
+    for rank, (mt, p) in enumerate(cands):
+        if rank < 6 and now - mt < 1200:
+            continue
+        use = os.path.join(p, '.use')
+        try:
+            fh = open(use, 'a')
+            fcntl.flock(fh, fcntl.LOCK_EX | fcntl.LOCK_NB)
+        except OSError:
+            continue
+        try:
+            shutil.rmtree(p, ignore_errors=True)
             try:
-                shutil.rmtree(p, ignore_errors=True)
-            finally:
-                fh.close()
+                os.unlink(p + '.lock')
+            except OSError:
+                pass
+        finally:
+            fh.close()
 
 
 class Scratch:
@@ -119,12 +134,16 @@ class Scratch:
         self.dir = os.path.join(SCRATCH_BASE, name)
         with flock(os.path.join(SCRATCH_BASE, name + '.lock')):
             _purge_old(name)
+            os.makedirs(self.dir, exist_ok=True)
+            # hold the in-use lock from before the build starts, so that a
+            # concurrent check of another tree cannot purge a build in progress
+            self._use = open(os.path.join(self.dir, '.use'), 'a')
+            fcntl.flock(self._use, fcntl.LOCK_SH)
             ok = os.path.join(self.dir, 'BUILD_OK')
             if not os.path.exists(ok):
                 t0 = time.time()
-                shutil.rmtree(self.dir, ignore_errors=True)
-                os.makedirs(self.dir)
                 dst = os.path.join(self.dir, 'repo')
+                shutil.rmtree(dst, ignore_errors=True)
                 subprocess.check_call(
                     ['rsync', '-a', '--exclude', '.git', '--exclude', 'build',
                      '--exclude', '__pycache__', '--exclude', '*.so',
@@ -142,8 +161,7 @@ class Scratch:
                 open(ok, 'w').write(str(time.time() - t0))
                 log('scratch build of tree %s took %.0fs' %
                     (self.hash, time.time() - t0))
-        self._use = open(os.path.join(self.dir, '.use'), 'w')
-        fcntl.flock(self._use, fcntl.LOCK_SH)
+            os.utime(self.dir, None)
         self.repo = os.path.join(self.dir, 'repo')
         self.home = os.path.join(self.dir, 'home')
         self.env = self._env()
